@@ -141,7 +141,68 @@ pub fn run_function_draws_on_the_run_budget<S: Src>(s: &mut S) {
     s.reached("c03.run_function_draws_on_the_run_budget");
 }
 
+/// `Vm::run_function` on a script function whose body is the single instruction `Exit`, entered
+/// with R instructions left of a configured budget M (both solver-chosen): the callback costs
+/// exactly one instruction of the *run's* budget. A nested run that re-armed the budget from
+/// `max_instr` would leave M - 1 instead of R - 1.
+pub fn run_function_exit_only<S: Src>(s: &mut S) {
+    let mut rig = Rig::new(8, 4, 1 << 16);
+    let h = Handle::from_u32(5);
+    let mut a = Asm::new();
+    a.exit();
+    rig.prog.bytecode = a.bc;
+    rig.prog.labels.0.insert(h, Label::new(0)).unwrap();
+    let f = rig.vm.init_function(h, 0).unwrap().into_inner();
+    let prog: *const CaoCompiledProgram = &rig.prog;
+    rig.vm.verif_set_program(prog);
+    let m = s.u32() as u64;
+    let r = s.u32() as u64;
+    s.assume(r >= 2 && r <= m);
+    rig.vm.max_instr = m;
+    rig.vm.remaining_iters = r;
+    reset_dispatch_count();
+    let res = rig.vm.run_function(Value::Object(f));
+    assert!(res.is_ok(), "C03.nested.callback_within_budget_completes");
+    assert!(dispatch_count() == 1, "C03.nested.callback_instruction_count");
+    assert!(rig.vm.remaining_iters == r - 1, "C03.nested.callback_instructions_count_against_the_run_budget");
+    std::mem::forget(res);
+    std::mem::forget(rig);
+    s.reached("c03.run_function_exit_only");
+}
+
+/// the same with one instruction left: the callback's first instruction is the one that times out
+pub fn run_function_exit_only_exhausted<S: Src>(s: &mut S) {
+    let mut rig = Rig::new(8, 4, 1 << 16);
+    let h = Handle::from_u32(5);
+    let mut a = Asm::new();
+    a.exit();
+    rig.prog.bytecode = a.bc;
+    rig.prog.labels.0.insert(h, Label::new(0)).unwrap();
+    let f = rig.vm.init_function(h, 0).unwrap().into_inner();
+    let prog: *const CaoCompiledProgram = &rig.prog;
+    rig.vm.verif_set_program(prog);
+    let m = s.u32() as u64;
+    s.assume(m >= 1);
+    let r = s.below(2) as u64;
+    rig.vm.max_instr = m;
+    rig.vm.remaining_iters = r;
+    reset_dispatch_count();
+    let res = rig.vm.run_function(Value::Object(f));
+    match &res {
+        Ok(_) => assert!(false, "C03.nested.exhausted_budget_is_timeout"),
+        Err(e) => assert!(kind_of(e) == E_TIMEOUT, "C03.nested.exhausted_budget_is_timeout"),
+    }
+    assert!(dispatch_count() == 0, "C03.nested.callback_instructions_count_against_the_run_budget");
+    std::mem::forget(res);
+    std::mem::forget(rig);
+    s.reached("c03.run_function_exit_only_exhausted");
+}
+
 crate::harnesses! {
+    #[kani::stub(alloc::fmt::format, crate::stub_format)]
+    c03_run_function_exit_only / 18 => run_function_exit_only;
+    #[kani::stub(alloc::fmt::format, crate::stub_format)]
+    c03_run_function_exit_only_exhausted / 18 => run_function_exit_only_exhausted;
     #[kani::stub(alloc::fmt::format, crate::stub_format)]
     c03_run_function_draws_on_the_run_budget / 18 => run_function_draws_on_the_run_budget;
     #[kani::stub(alloc::fmt::format, crate::stub_format)]
